@@ -31,7 +31,7 @@ M0(tr) == [cfg |-> tr.cfg, r |-> << >>, lastSid |-> 0,
            cliIW |-> 65535, rGrantC |-> 65535, rSentC |-> 0,
            setSent |-> 0, ackRecv |-> 0, pushAdvertised |-> -1,
            goaway |-> FALSE, gaLast |-> 0, gaCode |-> 0, gaSettled |-> FALSE,
-           openBlockES |-> FALSE, openBlockSid |-> 0, peerGone |-> FALSE, userClosed |-> FALSE, connClosed |-> FALSE, connErr |-> FALSE, badSettings |-> FALSE, pushSent |-> FALSE, gaStep |-> 0,
+           openBlockES |-> FALSE, openBlockSid |-> 0, peerGone |-> FALSE, userClosed |-> FALSE, connClosed |-> FALSE, connErr |-> FALSE, badSettings |-> FALSE, pushSent |-> FALSE, gaStep |-> 0, closeSeenQ |-> FALSE,
            bad |-> {}]
 
 Rq(mm, i) == IF i \in DOMAIN mm.r THEN mm.r[i] ELSE R0
@@ -231,7 +231,10 @@ OnQ(mm, e) ==
       c7 == FlagIf(c6, ~e.settled /\ mm.badSettings /\ e.canopen /\ ~e.closed, "C18:invalid-settings-value-accepted")
       c8a == FlagIf(c7, ~e.settled /\ mm.goaway /\ e.canopen /\ ~e.closed, "C11:connection-still-offered-for-new-streams-after-goaway")
       c8 == FlagIf(c8a, ~e.settled /\ mm.pushSent /\ e.canopen /\ ~e.closed, "C18:push-promise-tolerated-although-enable-push-0-was-advertised")
-  IN [c8 EXCEPT !.gaSettled = mm.goaway, !.connClosed = e.closed]
+      \* Close resolves what is in flight at once - also when the peer is not reading and Close's own GOAWAY cannot go out
+      pendingAfterClose == {i \in DOMAIN mm.r : mm.r[i].called /\ mm.r[i].res = 0 /\ ~mm.r[i].canceled}
+      c9 == FlagIf(c8, mm.userClosed /\ mm.closeSeenQ /\ pendingAfterClose # {}, "C12:request-left-unresolved-by-close")
+  IN [c9 EXCEPT !.gaSettled = mm.goaway, !.connClosed = e.closed, !.closeSeenQ = mm.userClosed]
 
 OnEnd(mm, e) ==
   LET never == {i \in DOMAIN mm.r : mm.r[i].called /\ mm.r[i].res = 0 /\ ~mm.r[i].canceled}
